@@ -239,8 +239,12 @@ func Counter.Update
 global lstlen IntArr
 type Stack
   ghost late Int         -- goroutines that went to sleep on elementAdded after the last Push changed the stack
-  monitor mutex guards global:lstlen, late cond elementAdded, elementRemoved
-  invariant self.elements != nil && sel(lstlen, self.elements) >= 0 && self.late >= 0
+  ghost lateRem Int      -- goroutines that went to sleep on elementRemoved after the last removal through Pop
+  monitor mutex guards global:lstlen, late, lateRem cond elementAdded, elementRemoved
+  invariant self.elements != nil && sel(lstlen, self.elements) >= 0 && self.late >= 0 && self.lateRem >= 0
+  -- likewise for removals (through Pop): whoever is asleep on elementRemoved went to sleep after the last removal, or a
+  -- notification for that removal is still owed
+  invariant self.owed_elementRemoved > 0 || self.sleep_elementRemoved <= self.lateRem
   -- an addition wakes EVERY goroutine that was asleep on elementAdded when it happened (they wait for different sizes):
   -- whoever is asleep went to sleep after the last addition, or a notification for that addition is still owed
   invariant self.owed_elementAdded > 0 || self.sleep_elementAdded <= self.late
@@ -272,6 +276,8 @@ func Stack.WaitSizeIsBelow
   requires b != nil && unlocked(b.mutex) && b.elementRemoved != nil
   modifies monitor(b)
   loop 1 invariant held(b.mutex) && moninv(b)
+  opt assume-no-overflow
+  ghost before wait: b.lateRem = b.lateRem + 1
   ghost before unlock: assert sel(lstlen, b.elements) < threshold
   ensures unlocked(b.mutex)
 
@@ -291,6 +297,29 @@ func Stack.WaitIsEmpty
   modifies monitor(b)
   ghost before call Stack.WaitSizeIsBelow: assert arg1 == 1
   ensures unlocked(b.mutex)
+
+-- Pop: a removal promises a Broadcast on elementRemoved while it holds the lock (owe) and its deferred function delivers
+-- it after the lock is released - for every successful removal (a function returns with the debts it was called with)
+assume-func container/list.List.Front(l) (e)
+  ensures sel(lstlen, l) > 0 ==> e != nil
+assume-func container/list.List.Remove(l, e) (v)
+  modifies ghost(lstlen)
+  ensures lstlen == upd(old(lstlen), l, sel(old(lstlen), l) - 1)
+func Stack.Pop
+  instantiate T: int
+  opt assume-type-asserts
+  requires b != nil && unlocked(b.mutex) && b.elementRemoved != nil
+  modifies monitor(b)
+  ghost before unlock: owe elementRemoved if success
+  ghost before unlock: b.lateRem = (success ? 0 : b.lateRem)
+  ensures unlocked(b.mutex)
+func Stack.Pop$1
+  instantiate T: int
+  opt debts-change
+  requires b != nil && *b != nil && success != nil && unlocked((*b).mutex) && (*b).elementRemoved != nil
+  modifies monitor(*b)
+  ensures unlocked((*b).mutex)
+  ensures mydebt((*b).elementRemoved) == ((*success && old(mydebt((*b).elementRemoved)) > 0) ? old(mydebt((*b).elementRemoved)) - 1 : old(mydebt((*b).elementRemoved)))
 
 -- PopOrWait: the caller's wait condition is consulted BEFORE every wait - a goroutine goes to sleep on elementAdded only
 -- after the condition has just said "keep waiting" (a condition that already says "stop" - e.g. a shutdown signalled
